@@ -97,17 +97,35 @@ GraphSchemas(g) ==
 \* an attribute of N::E refers to X unqualified / qualified with N / with M (undeclared) / __cedar::Long / a built-in name
 Decl == {"e", "c", "-"}
 NameRefs == << TRef("", "X"), TRef("N", "X"), TRef("M", "X"), TEnt("", "X"), TEnt("N", "X"), TRef("__cedar", "Long"), TRef("__cedar", "X"),
-               TRef("", "Long"), TRef("", "Boolean"), TRef("", "decimal"), TRef("", "Y") >>
+               TRef("", "Long"), TRef("", "Boolean"), TRef("", "decimal"), TRef("", "Y"),
+               \* the built-in types themselves (not references): with a declaration of the same name in scope
+               \* (builtinShadow) their text form must still mean the built-in
+               TLong, TString, [t |-> "ext", name |-> "decimal"], TSet(TBool) >>
 NameSchema(dBare, dN, r, builtinShadow) ==
   [ns |-> << Ns("", (IF dBare = "e" THEN <<Ent("X", <<>>, <<>>, None)>> ELSE <<>>) \o (IF builtinShadow THEN <<Ent("Long", <<>>, <<>>, None)>> ELSE <<>>),
-                <<>>, <<>>, IF dBare = "c" THEN <<[name |-> "X", annos |-> NoA, type |-> TString]>> ELSE <<>>),
-             Ns("N", <<Ent("E", <<>>, <<Attr("x", NameRefs[r], FALSE)>>, None)>> \o (IF dN = "e" THEN <<Ent("X", <<>>, <<>>, None)>> ELSE <<>>),
+                <<>>, <<>>, (IF dBare = "c" THEN <<[name |-> "X", annos |-> NoA, type |-> TString]>> ELSE <<>>)
+                            \o (IF builtinShadow THEN <<[name |-> "decimal", annos |-> NoA, type |-> TString]>> ELSE <<>>)),
+             Ns("N", <<Ent("E", <<>>, <<Attr("x", NameRefs[r], FALSE)>>, None)>> \o (IF dN = "e" THEN <<Ent("X", <<>>, <<>>, None)>> ELSE <<>>)
+                     \o (IF builtinShadow THEN <<Ent("String", <<>>, <<>>, None), Ent("Bool", <<>>, <<>>, None)>> ELSE <<>>),
                 <<>>, <<>>, IF dN = "c" THEN <<[name |-> "X", annos |-> NoA, type |-> TBool]>> ELSE <<>>) >>]
 
 \* features
 Odd == <<233, 34, 92, 10, 128512>>        \* e-acute " \ LF emoji
+\* a ladder of diamonds in the action hierarchy: two actions per level, each a member of both actions of the next
+\* level -- 2^depth paths to the top, 2 * depth actions
+LadderDepth == 24
+LadderName(i) == "a" \o ToString(i)
+Ladder ==
+  [ns |-> << Ns("", << Ent("E", <<>>, <<>>, None) >>, <<>>,
+                [i \in 1..(2 * LadderDepth) |->
+                   Act(LadderName(i),
+                       IF (i + 1) \div 2 < LadderDepth
+                       THEN << [q |-> "", id |-> LadderName(2 * ((i + 1) \div 2) + 1)], [q |-> "", id |-> LadderName(2 * ((i + 1) \div 2) + 2)] >>
+                       ELSE <<>>,
+                       IF i = 1 THEN Applies(<<Ref("", "E")>>, <<Ref("", "E")>>, None) ELSE None)],
+                <<>>) >>]
 FeatureSchemas ==
-  << [ns |-> << [name |-> "N", annos |-> A("doc", Odd) \o A("flag", <<>>),
+  << Ladder, [ns |-> << [name |-> "N", annos |-> A("doc", Odd) \o A("flag", <<>>),
                  entities |-> << [name |-> "E", annos |-> A("id", <<101>>), parents |-> <<Ref("", "F"), Ref("N", "F")>>,
                                   shape |-> << [name |-> "if", type |-> TString, opt |-> TRUE, annos |-> A("a", <<49>>)],
                                                Attr("a b", TSet(TRec(<<Attr("", TLong, TRUE), Attr("~{e9}", TRef("", "ipaddr"), FALSE)>>)), FALSE),
